@@ -31,7 +31,7 @@ theorem wrappers_as_modelled :
       ("Timestamp", "$SignedTreeHead.Timestamp"), ("TreeSize", "$SignedTreeHead.TreeSize"), ("Version", "$SignedTreeHead.Version")] ∧
     Gen.sthInputMarshalled = ["TreeHeadSignature"] ∧
     Gen.leafHashMarshal = ["*$*MerkleTreeLeaf"] ∧ Gen.leafHashPrefix = ["TreeLeafPrefix"] ∧ Gen.leafHashSum = ["$append"] ∧
-    Gen.rawLogEntryUnmarshal = ["$*LeafEntry.LeafInput,&$var(RawLogEntry{Index:$int64}).Leaf",
+    Gen.rawLogEntryUnmarshal = ["$*LeafEntry.LeafInput,&$lit(RawLogEntry).Leaf",
       "$*LeafEntry.ExtraData,&$decl(CertificateChain)", "$*LeafEntry.ExtraData,&$decl(PrecertChainEntry)"] ∧
     Gen.extraDataPrecertFields = [("CertificateChain", "$[]ct.ASN1Cert"), ("PreCertificate", "$ct.ASN1Cert")] ∧
     Gen.extraDataChainFields = [("Entries", "$[]ct.ASN1Cert")] ∧
